@@ -445,7 +445,7 @@ func C10(tier string) int {
 		"traces_validated_against_impl": done,
 		"evaluations":                   done,
 		"distinct_nontrivial":           len(cells),
-		"rule":                          "each cell = prior per-key history made by real signing x one or two interchange files imported by the real `dirk --import-slashing-protection` binary built from the tree; afterwards the store is reopened and probed: every proposal at or below the highest own/file slot and every attestation at or below the highest own/file target or below the highest own/file source must be refused; no decoded record may decrease; wrong metadata must give a non-zero exit and unchanged records",
+		"rule":                          "each cell = prior per-key history made by real signing x one or two interchange files (incl. files whose values are the lowest legal ones: slot 0, attestation 0->0, source 0) imported by the real `dirk --import-slashing-protection` binary built from the tree; afterwards the store is reopened and probed: every proposal at or below the highest own/file slot and every attestation at or below the highest own/file target or below the highest own/file source must be refused; no decoded record may decrease; wrong metadata must give a non-zero exit and unchanged records",
 		"samples":                       samples.List(),
 		"exhaustive":                    !capped,
 		"prior_states":                  len(priors),
